@@ -57,6 +57,17 @@ def b_ite(c, a, b):
         return b_or(b_not(c), a) if b else b_and(c, a)
     if a.eq(b):
         return a
+    # ite(x == y, a, b) with {a, b} = {x, y}: where the guard holds both have the same value, so the result is b
+    # (`if bit == cur { } else { cur = bit }` leaves cur == bit whatever the branch)
+    e, neg = (c.arg(0), True) if z3.is_not(c) else (c, False)
+    if z3.is_app_of(e, z3.Z3_OP_XOR) and e.num_args() == 2:
+        neg = not neg
+    elif not (z3.is_eq(e) and e.num_args() == 2):
+        e = None
+    if e is not None:
+        x, y = e.arg(0), e.arg(1)
+        if (a.eq(x) and b.eq(y)) or (a.eq(y) and b.eq(x)):
+            return a if neg else b
     return z3.If(c, a, b)
 
 
